@@ -112,6 +112,10 @@ func genAssocV(c *Ctx, nPairs int, withExtras bool, withConflicts bool, variant 
 				tu.Delay = cp32(120)
 				key.WriteString("tuWithoutStops ")
 			}
+			if variant == 3 && c.Free(p+"trip_update_timestamp", 2) == 1 {
+				tu.Timestamp = u64p(1700000555) // the trip update's own timestamp says nothing about when the vehicle was last heard of
+				key.WriteString("tuTimestamp ")
+			}
 			if ap.vd != nil && tuNamesVehicle {
 				tu.Vehicle = cloneVD(ap.vd)
 				if variant == 3 && ap.vdesc == 0 && ap.expr == 3 && c.Free(p+"trip_update_names_the_vehicle_by_id_only", 2) == 1 {
